@@ -418,3 +418,17 @@ def base_filter(repo_src, dst, keep_gmp=False):
     f.rename_unary_ops()
     f.static_init_rules()
     return f
+
+
+def gmp_filter(repo_src, dst):
+    """E-gmp (C15 only): the mpz_class functions of goldilocks_base_field_tools.hpp keep their bodies; mpz_class is bound to
+    a 128-bit integer by stubs/vf_gmp_model.h (assumed contracts on GMP, see that file)."""
+    f = base_filter(repo_src, dst, keep_gmp=True)
+    fn = 'goldilocks_base_field_tools.hpp'
+    f.replace_text(fn, 'E-gmp', r'\b(\w+)\.get_ui\(\)', r'vf_mpz_get_ui(\1)', 4)
+    f.replace_text(fn, 'E-gmp', r'\b(\w+)\.get_si\(\)', r'vf_mpz_get_si(\1)', 4)
+    f.replace_text(fn, 'E-gmp', r'(\b\w+|\([^()]*(?:\([^()]*\)[^()]*)*\)) % \(uint64_t\)GOLDILOCKS_PRIME', r'vf_mpz_tdiv_r_p(\1)', 2)
+    f.replace_text(fn, 'E-gmp', r'mpz_class aux\(in1, radix\);', 'mpz_class aux = vf_mpz_parse(in1, radix); /* E-gmp: GMP string parse not verified */', 1)
+    f.replace_text(fn, 'E-gmp', r'std::cerr << "Error: Goldilocks::toS32 accessing a non-32bit value: "[^;]*;', '/* E-gmp: diagnostic output dropped */;', 1)
+    f.replace_text(fn, 'E-gmp', r'#include "goldilocks_base_field.hpp"\n', '#include "goldilocks_base_field.hpp"\nmpz_class vf_mpz_parse(const std::string &, int);\n', 1)
+    return f
